@@ -358,6 +358,21 @@ func c02Run(c *core.Ctx) *core.Result {
 			r.ViolateD("req-set", map[string]any{"edits": o.Edits, "missing": miss, "extra": extra, "old": o.Old.Lines(), "src": o.SrcF.Lines()},
 				"round %d (edits %v, differ=%d): content requests differ from the identity model: not requested %q, needlessly requested %q", i, o.Edits, o.Differ, miss, extra)
 		}
+		// "rewrites exactly those entries whose identity differs": after the
+		// round nothing that differed may be left as it was (a stale entry
+		// that survives, a changed one that was skipped)
+		if o.Differ != fsutil.DiffNone {
+			exp, created := expectSync(o.SrcF, o.Old, o.New)
+			m := syncMask(created)
+			// xattrs are not part of the identity: an unchanged entry keeps
+			// its old ones, and the inode of a link group that gains a
+			// member is stamped with the source's (C01 judges xattrs)
+			m.Xattrs, m.DirXattrs = false, false
+			if diffs := tree.Diff(exp, o.New, m); len(diffs) > 0 {
+				r.ViolateD("round-diverged", map[string]any{"edits": o.Edits, "old": o.Old.Lines(), "src": o.SrcF.Lines()}, "round %d (edits %v): entries whose identity differed were not brought in line with the source:\n%s", i, o.Edits, strings.Join(trunc(diffs, 8), "\n"))
+			}
+			r.Count("round_final_states_compared", 1)
+		}
 		// untouched entries keep inode and bytes
 		if o.Differ != fsutil.DiffNone {
 			oi, ni := o.Old.Index(), o.New.Index()
